@@ -124,10 +124,10 @@ fn check_mapper(rng: &mut Rng, res: &mut CaseResult) {
             if lows.is_empty() {
                 vec![failure]
             } else if high {
-                // present both below and at/above 256: the statement does not pin this case
-                let mut v = lows.clone();
-                v.push(failure);
-                v
+                // present both below and at/above 256: not "all occurrences below 256", so the statement's
+                // "otherwise" applies - the failure index (and not whichever entry a hash order visits last)
+                res.count("queries_colour_below_and_above_256", 1);
+                vec![failure]
             } else {
                 lows
             }
@@ -135,7 +135,7 @@ fn check_mapper(rng: &mut Rng, res: &mut CaseResult) {
         if !allowed.contains(&got) {
             res.violations.push(
                 Violation::new(
-                    format!("mapper|{}", if q[3] != 255 { "transparent" } else if allowed == vec![failure] { "absent-colour" } else { "present-colour" }),
+                    format!("mapper|{}", if q[3] != 255 { "transparent" } else if allowed == vec![failure] && below.iter().any(|(_, c)| c[0] == q[0] && c[1] == q[1] && c[2] == q[2]) { "colour-also-at-index-above-255" } else if allowed == vec![failure] { "absent-colour" } else { "present-colour" }),
                     format!("PaletteMapper::lookup{:?} = {} but allowed answers are {:?} (failure index {}, transparent option {:?}, palette of {} entries from {})", q, got, &allowed[..allowed.len().min(8)], failure, transparent, pal.len(), pal.keys().next().unwrap()),
                 )
                 .with_extra(json!({"query": q, "got": got, "failure": failure, "transparent": transparent})),
